@@ -1,4 +1,4 @@
-import re
+import re, os
 
 MOD = "consensus::blockstore::slot_block_data::kani_c13"
 SBD = "src/consensus/blockstore/slot_block_data.rs"
@@ -113,6 +113,10 @@ SPEC = {
         _pslot(1, Q), _pslot(2, T),
         {"name": "c13_once", "path": MOD, "tiers": Q, "role": "exactly once: a completed block is never assembled again", "functions": ["BlockData::try_reconstruct_block"],
          "bounds": "arbitrary BlockData whose `completed` is set (any hash / parent), with or without a last-slice marker (none, 0, 1) and a left-over slice 0", "stubs": [LOG_STUB], "covers": 1, "cbmc_args": CBMC},
+        {"name": "c13_post_equiv", "path": MOD, "tiers": Q, "role": "equivocation after the block was assembled",
+         "functions": ["SlotBlockData::add_shred_from_dissemination", "BlockData::{add_shred,try_reconstruct_block,mark_last_slice}"],
+         "bounds": "one-slice block: shred 0 of slice 0 (last) through add_shred_from_dissemination, decoded slice installed by the harness, real try_reconstruct_block; then one more validly signed shred (index 1) with arbitrary slice index, last flag and payload; slot any u64; Reed-Solomon cut (try_reconstruct_slice stub)",
+         "stubs": [HASH_STUB, LOG_STUB, DEC_STUB, "consensus::blockstore::slot_block_data::BlockData::try_reconstruct_slice"], "covers": 3, "timeout": {"quick": 900, "thorough": 1800}, "mem_gb": 16, "cbmc_args": CBMC},
         {"name": "c13_noaction", "path": MOD, "tiers": Q, "role": "no assembly without marker / with a slice missing / twice", "functions": ASM_FUNCS,
          "bounds": "two-slice block, concrete scenarios (no marker; first slice missing, then arriving; slices beyond the marker) with arbitrary slot, roots, parent", "stubs": [HASH_STUB, LOG_STUB, DEC_STUB], "covers": 1,
          "timeout": {"quick": 480, "thorough": 1500}, "cbmc_args": CBMC},
